@@ -4,14 +4,16 @@
    result or error class, the complete list of own properties with their
    attributes, the extensible flag, and the callback log. *)
 From Coq Require Import ZArith Bool List.
-From Otto Require Import Common.Corr Common.Double C08.Model C08.Sort.
+From Otto Require Import Common.Corr Common.Double C08.Model C08.Sort C08.Str.
 From Otto Require Export C08.Spec.
 Import ListNotations.
 Open Scope Z_scope.
 
 Inductive case :=
 | CHist (init : obj) (ops : list op) (observed : list obs)
-| CSort (elems : list (option val)) (cmp : Z) (observed : list (option val)).
+| CSort (elems : list (option val)) (cmp : Z) (observed : list (option val))
+| CStr (m : Z) (s : list Z) (args : list val) (observed : option (list Z))      (* None = Go panic / error *)
+| CCtor (args : list val) (observed : outcome).
 
 Definition oval_eqb := option_eqb val_eqb.
 Definition rv_eqb (a b : rv) : bool :=
@@ -43,13 +45,13 @@ Definition obsl_eqb := list_eqb obs_eqb.
    6 reverse deletes before it puts when only the upper element exists
    7 lastIndexOf with fromIndex = length inspects index length
    8 redefining length with its current value on a non-writable length is rejected
-   99 more than one of the above in one history *)
+   9 String.prototype.substr: start + length overflows int64 (Go panic)
+   a history is attributed to the lowest-numbered departure that makes it differ from ES5 *)
 Definition classes : list Z := [1; 2; 3; 4; 5; 6; 7; 8].
 
 Definition classify (init : obj) (ops : list op) (s : list obs) : Z :=
-  match filter (fun c => negb (obsl_eqb (run (only c) init ops) s)) classes with
-  | [c] => c
-  | c :: _ => if obsl_eqb (run (only c) init ops) (run otto init ops) then c else 99
+  match filter (fun c => negb (obsl_eqb (run (upto c) init ops) s)) classes with
+  | c :: _ => c
   | [] => 99
   end.
 
@@ -68,5 +70,15 @@ Definition verdict (c : case) : Z * Z :=
           let good := sorted_perm cmp elems observed in
           if list_eqb oval_eqb observed m then (if good then (0, 0) else (1, 20))
           else if good then (2, 20) else (3, 20)
+      end
+  | CStr m s args observed =>
+      match str_spec m s args, str_model m s args with
+      | Some sp, Some mo => judge (option_eqb zlist_eqb) observed mo (Some sp) 9
+      | _, _ => declined
+      end
+  | CCtor args observed =>
+      match ctor_spec args, ctor_model args with
+      | Some sp, Some mo => judge outcome_eqb observed mo sp 10
+      | _, _ => declined
       end
   end.
